@@ -241,7 +241,7 @@ pub fn hist_spec(id: &str, tier: &str) -> Option<(HistSpec, Info)> {
                 s,
                 Info {
                     level: "exploration",
-                    rule: "one evaluation = one generated history whose final state (both maps) is checked for every query of the query set (all 511 prefixes on the 8-bit type): view_at/view_mut_at and, recursively, every view reachable by left/right/split; non-trivial = (state, q) where the view is virtual, sits at a value-less node or has >=4 reachable sub-views (at most 48 counted per state); distinct by (key set, q)",
+                    rule: "one evaluation = one generated history whose final state (both maps) is checked for every query of the query set (all 511 prefixes on the 8-bit type): view_at/view_mut_at and, recursively, every view reachable by left/right/split, plus view_at/view_mut_at called on that view for up to 8 queries below it; non-trivial = (state, q) where the view is virtual, sits at a value-less node or has >=4 reachable sub-views (at most 48 counted per state); distinct by (key set, q)",
                     assumptions: vec![gen_note.into(), "iff-direction (view exists iff it holds an entry) is only asserted while the history used insert-class ops, remove, retain, clear".into()],
                 },
             )
